@@ -11,7 +11,8 @@
  *                beyond VP_SLAB bytes or for more than VP_NSLAB buffers trips a
  *                "vp-model:" assertion (reported as a broken check, never
  *                truncated silently).
- * ldb_free    -> slabs are not recycled; other pointers go to free().
+ * ldb_free    -> slabs are not recycled; pointers to other static objects
+ *                (vp_arriter slots) are ignored; heap pointers go to free().
  * -DVP_ALLOC_WRAPITERS=n: the one ldb_malloc(n * sizeof(ldb_wrapiter_t)) of
  *                merger.c is served from a static, TYPED array.  Through the
  *                plain malloc model the size expression n*sizeof(T) is folded
@@ -126,7 +127,8 @@ ldb_free(void *ptr) {
   if (ptr != NULL && __CPROVER_same_object(ptr, vp_wraps))
     return;
 #endif
-  if (ptr != NULL && !vp_is_slab(ptr))
+  /* static objects (slabs, vp_arriter slots) are not heap objects */
+  if (ptr != NULL && !vp_is_slab(ptr) && __CPROVER_DYNAMIC_OBJECT(ptr))
     free(ptr);
 }
 
